@@ -98,7 +98,7 @@ def gen_metamodel(rng, k):
         if rng.random() < .3:
             an = E.EAnnotation(source=f'http://verif/annot{fid[0]}')
             an.details['documentation'] = rng.choice(['some doc', 'x < y & z', ''])
-            an.details['k'] = 'v'
+            an.details['k'] = rng.choice(['v', 'v', None])      # an entry may come without a value (`<details key="k"/>`)
             c.eAnnotations.append(an)
     # opposite pairs
     for _ in range(rng.choice([0, 1, 2])):
@@ -131,7 +131,7 @@ def signature(pkg):
         return '/'.join(reversed(names))
 
     def ann(e):
-        return sorted((a.source, sorted(a.details.items())) for a in e.eAnnotations)
+        return sorted((a.source, sorted(a.details.items(), key=lambda kv: (kv[0], kv[1] is None, kv[1] or ''))) for a in e.eAnnotations)
 
     def walk(p, path):
         here = path + '/' + p.name
@@ -178,13 +178,18 @@ def instantiable(pkg):
     return None
 
 
-def roundtrip_pkg(pkg, tmp, name):
+def roundtrip_pkg(pkg, tmp, name, defaults=False):
     from pyecore.resources import ResourceSet, URI
+    from pyecore.resources.xmi import XMIOptions
     path = os.path.join(tmp, name)
     rs = ResourceSet()
     r = rs.create_resource(URI(path))
     r.append(pkg)
-    r.save()
+    if defaults:
+        # every feature of every metamodel element written out, unset ones included (`<… xsi:nil="true"/>` for None)
+        r.save(options={XMIOptions.SERIALIZE_DEFAULT_VALUES: True})
+    else:
+        r.save()
     rs2 = ResourceSet()
     return rs2.get_resource(URI(path)).contents[0], path
 
@@ -195,7 +200,8 @@ def run_case(ctx, h, tmp):
     before = signature(pkg)
     ctx.evaluations += 1
     try:
-        back, path = roundtrip_pkg(pkg, tmp, f'm{h}.ecore')
+        back, path = roundtrip_pkg(pkg, tmp, f'm{h}.ecore', defaults=h % 3 == 1)
+        ctx.count('save/serialize-default-values' if h % 3 == 1 else 'save/plain')
         after = signature(back)
     except Exception as e:
         import traceback
@@ -257,8 +263,19 @@ def restructure_pkg(rng, pkg):
             c = rng.choice(classes)
             new = c.name + 'R'
             if all(x.name != new for x in c.ePackage.eClassifiers):
+                was = c.name
                 c.name = new
                 done.append(f'class renamed to {new}')
+                if rng.random() < .5:
+                    # … and the name it had goes to another classifier of the same package: an existing one, or a new one
+                    others = [x for x in c.ePackage.eClassifiers if x is not c]
+                    if others and rng.random() < .5:
+                        o = rng.choice(others)
+                        done.append(f'{type(o).__name__} {o.name} of the same package renamed to {was}')
+                        o.name = was
+                    else:
+                        c.ePackage.eClassifiers.append(E.EClass(was))
+                        done.append(f'a new EClass named {was} added to the same package')
     return done
 
 
